@@ -25,7 +25,10 @@ RULE = ("a BD object is used for 1-3 consecutive precodings (object re-used, "
         "count.  icontract postconditions on the real block_diagonalize* / "
         "calc_receive_filter methods decide every call.  Signature = (variant, "
         "K, antennas, gain class, round kind, metric, streams); non-trivial = "
-        "K >= 2 (always).")
+        "K >= 2 (always).  "
+        "The driver records the requested metric / stream count (the contract "
+        "compares them with what is in force) and reconfigures the same object "
+        "between rounds. ")
 ASSUMPTIONS = [
     "a stream counts as 'given power' when its effective gain sqrt(p)*sigma "
     "exceeds 1e-10 of the largest one (pinv discards below 1e-15: the zone in "
